@@ -862,6 +862,7 @@ fn main() {
         "query-overflow" => misc::query_overflow(&mut cx),
         "dec-replay" => dec::replay(&mut cx.sh, &arg_val(&args, "--in").expect("--in FILE")),
         "oneshot-replay" => misc::oneshot_replay(&mut cx, &arg_val(&args, "--in").expect("--in FILE")),
+        "oneshot-enc-replay" => misc::oneshot_enc_replay(&mut cx, &arg_val(&args, "--in").expect("--in FILE")),
         _ => {
             eprintln!("unknown profile {}", profile);
             std::process::exit(2);
